@@ -15,6 +15,7 @@ read-path functions of the model: same elites, same order, declared dtypes."""
 import json
 import os
 import random
+import py2v_validate
 import time
 import traceback
 
@@ -25,7 +26,9 @@ from c12_util import LAYOUT_CODE, LAYOUTS, is_store_path, poison_returned, retur
 
 CONFIG = {
     "cone": ["Base/ListUtil.v", "Model/Store.v", "Proofs/StoreProofs.v", "Model/Alias.v", "Proofs/AliasSound.v", "Proofs/AliasOut.v", "Proofs/AliasEnumA.v",
-             "Proofs/AliasEnumB.v", "Proofs/AliasEnumC.v", "Proofs/AliasEnumD.v", "Proofs/AliasProofs.v", "Properties/C12.v"],
+             "Proofs/AliasEnumB.v", "Proofs/AliasEnumC.v", "Proofs/AliasEnumD.v", "Proofs/AliasProofs.v", "Properties/C12.v",
+             "Model/ValidateIR.v", "Generated/ValidateGen.v", "Refine/ValidateRefine.v"],
+    "extra_property_files": ["Refine/ValidateRefine.v"],
     "coqchk_budget": 2400,   # the vm_compute enumerations of Proofs/AliasEnum*.v take coqchk about 28 minutes
     "trusted": [
         "coq/Model/Alias.v: the per-entry-point programs are hand-written transcriptions of the Python (one instruction per "
@@ -721,6 +724,7 @@ def forced_cases():
 
 def check(rep, tier, seed, driver):
     from common import CORPUS
+    py2v_validate.report(rep)
     rng = random.Random(seed)
     t0 = time.time()
     budget = 40 if tier == "quick" else 400
